@@ -279,6 +279,22 @@ func c08RTRun(args []string) error {
 				rec.Alts = append(rec.Alts, alt)
 				rec.Leads = append(rec.Leads, [][]int{{1}, {2}, {1, 2}}[r.Intn(3)])
 			}
+		} else if tries%4 == 1 {
+			// three alternatives in conflict on one terminal, only two of them on the other (pairwise contradictory), in random order
+			n = 3
+			ins := r.Perm(3)
+			x, y := c08Lit{Input: ins[0] + 1, Neg: r.Intn(2) == 0}, c08Lit{Input: ins[1] + 1, Neg: r.Intn(2) == 0}
+			nx, ny := c08Lit{Input: x.Input, Neg: !x.Neg}, c08Lit{Input: y.Input, Neg: !y.Neg}
+			alts := [][]c08Lit{{x, y}, {x, ny}, {nx}}
+			one := []int{1 + r.Intn(2)}
+			leads := [][]int{{1, 2}, {1, 2}, one}
+			if r.Intn(3) == 0 {
+				leads = [][]int{{1, 2}, one, {1, 2}}
+			}
+			for _, k := range r.Perm(3) {
+				rec.Alts = append(rec.Alts, alts[k])
+				rec.Leads = append(rec.Leads, leads[k])
+			}
 		} else {
 			// overlapping terminal sets: one alternative per terminal and one that can start with either and contradicts both,
 			// in random order (so the shared one meets a different partner on each terminal)
@@ -311,7 +327,15 @@ func c08RTRun(args []string) error {
 				}
 			}
 		}
-		if !ok || !crossOnly {
+		sameLeads := true
+		for i := 1; i < n; i++ {
+			if !slices.Equal(rec.Leads[i], rec.Leads[0]) {
+				sameLeads = false
+			}
+		}
+		// keep sets that differ from terminal to terminal: alternatives kept apart by the terminal alone, or a conflict of three on one
+		// terminal of which only two meet on the other
+		if !ok || (!crossOnly && (sameLeads || tries%4 > 1)) {
 			continue
 		}
 		pkg := fmt.Sprintf("k%d", len(recs))
